@@ -9,7 +9,10 @@ from ..errors import ErrorClass
 _SQLSTATE_RE = re.compile(r"\b([0-9A-Z]{5})\b")
 
 
-def _extract_sqlstate(args: Iterable[object]) -> str | None:
+def _extract_sqlstate(args: object) -> str | None:
+    if not isinstance(args, Iterable):
+        # e.g. an exception type with its own non-tuple ``args`` attribute
+        return None
     for arg in args:
         if isinstance(arg, str):
             match = _SQLSTATE_RE.search(arg)
